@@ -195,11 +195,13 @@ class Batch(object):
             idxs = index_list(size, count, self.base_seed, stratum)
             ps = self.res["per_stratum"].setdefault(stratum, {"planned": len(idxs), "space": size, "runs": 0,
                                                             "skipped": 0, "violations": 0})
-            for i in range(0, len(idxs), chunk):
+            step = chunk if size is not None else max(50, chunk // 3)     # random strata have long histories
+            for i in range(0, len(idxs), step):
                 full = i == 0
                 if full:
-                    self.selftest_plan.append((stratum, idxs[:min(chunk, self.selftest_n)]))
-                tasks.append((self.mname, stratum, self.base_seed, idxs[i:i + chunk], 2, full))
+                    self.selftest_plan.append((stratum, idxs[:min(step, self.selftest_n)]))
+                tasks.append((self.mname, stratum, self.base_seed, idxs[i:i + step], 2, full))
+        tasks.sort(key=lambda t: 0 if self.m.stratum_size(t[1]) is None else 1)
         ctx = multiprocessing.get_context("fork")
         capped = False
         with ProcessPoolExecutor(max_workers=self.workers, mp_context=ctx, initializer=_init_worker,
@@ -277,15 +279,22 @@ def determinism_selftest(mname, base_seed, plan, pool_digests, opts, hashseed="1
     different PYTHONHASHSEED values; their run digests must equal each other and the digests the
     worker pool produced (different process, different worker count, different run order)."""
     outs = []
+    procs = []
     for hs in ("0", hashseed):
         env = dict(os.environ)
         env["PYTHONHASHSEED"] = hs
         cmd = [sys.executable, "-B", os.path.join(VERIF, "sim", "cli.py"), "digests", mname,
                "--seed", str(base_seed), "--plan", json.dumps(plan), "--opts", json.dumps(opts)]
-        p = subprocess.run(cmd, env=env, stdout=subprocess.PIPE, stderr=subprocess.PIPE, timeout=900)
+        procs.append(subprocess.Popen(cmd, env=env, stdout=subprocess.PIPE, stderr=subprocess.PIPE))
+    for p in procs:
+        try:
+            so, se = p.communicate(timeout=900)
+        except subprocess.TimeoutExpired:
+            p.kill()
+            return {"ok": False, "error": "self-test interpreter timed out"}
         if p.returncode != 0:
-            return {"ok": False, "error": p.stderr.decode()[-2000:]}
-        outs.append(json.loads(p.stdout.decode().strip().splitlines()[-1]))
+            return {"ok": False, "error": se.decode()[-2000:]}
+        outs.append(json.loads(so.decode().strip().splitlines()[-1]))
     a, b = outs
     keys = set(a) | set(b)
     diff = sorted(k for k in keys if a.get(k) != b.get(k))
